@@ -444,4 +444,3 @@ func toString(v value) string {
 	writeValue(&b, v)
 	return b.String()
 }
-
